@@ -122,6 +122,22 @@ Section Quat.
     | 2%nat => (m20 + m02, m21 + m12, k1 - m00 - m11 + m22, m10 - m01)
     | _ => (m21 - m12, m02 - m20, m10 - m01, k1 + m00 + m11 + m22)
     end.
+
+  (* _make_elementary_quat with s = sin(angle/2), c = cos(angle/2): component `axis` of the stored quaternion = s, w = c *)
+  Definition elementary_sc (axis : nat) (s c : R) : quat :=
+    match axis with 0%nat => (s, k0, k0, c) | 1%nat => (k0, s, k0, c) | _ => (k0, k0, s, c) end.
+  (* from_euler: start with the first elementary rotation; intrinsic composes the next one on the right, extrinsic on the left *)
+  Fixpoint from_euler_acc (intrinsic : bool) (acc : quat) (axes : list nat) (scs : list (R * R)) : quat :=
+    match axes, scs with
+    | a :: axs, (s, c) :: ts =>
+        from_euler_acc intrinsic (if intrinsic then qmul acc (elementary_sc a s c) else qmul (elementary_sc a s c) acc) axs ts
+    | _, _ => acc
+    end.
+  Definition from_euler_sc (intrinsic : bool) (axes : list nat) (scs : list (R * R)) : quat :=
+    match axes, scs with
+    | a :: axs, (s, c) :: ts => from_euler_acc intrinsic (elementary_sc a s c) axs ts
+    | _, _ => qone
+    end.
 End Quat.
 
 Arguments v0 {R}. Arguments v1 {R}. Arguments v2 {R}.
